@@ -277,6 +277,10 @@ def curated() -> Dict[str, World]:
         "ifcreate", {"f": ["0", "1"], "u": ["0", "1"]},
         {"t.do": [S(ifcreate=["f"], deps=["u2"])], "u2.do": [S(deps=["u"])]},
         ["t", "u2"], ["t"], absent=["f"])
+    W["ifcreate-link"] = World(   # the watched path is a symbolic link whose target does not exist yet (a dangling link is "absent")
+        "ifcreate-link", {"f": ["0", "1"], "u": ["0", "1"]},
+        {"t.do": [S(ifcreate=["f"], deps=["u2"])], "u2.do": [S(deps=["u"])]},
+        ["t", "u2"], ["t"], absent=["f"], symlinks={"f": "f.real"})
     W["ifcreate-raw"] = World(
         "ifcreate-raw", {"f": ["0", "1"], "u": ["0", "1"]},
         {"t.do": [S(ifcreate_raw=["f"], deps=["u"])], "top.do": [S(deps=["t"], out="file")]},
